@@ -167,6 +167,7 @@ def step (_ : Unit) (line : String) : Unit × String :=
       match verOf v, (h.splitOn ",").mapM unhex with
       | some ver, some datas => "keep " ++ String.intercalate " | " (datas.map (decLine ver))
       | _, _ => "bad-op"
+    | ["pf", _, _, _] => "pf"      -- an encode into a failing writer: encoding is a function of the packet, nothing carries over
     | [op, v, h] =>
       match verOf v, unhex h with
       | some ver, some data =>
